@@ -32,6 +32,8 @@ FIXED = [
  ("C05", "F6", "replays/C05-F6-format5-kwargs.json"), ("C05", "F6", "replays/C05-F6-format5-kwargs-dh.json"),
  ("C05", "F6", "replays/C05-F6-format5-kwargs-sc.json"), ("C05", "F5a", "replays/C05-F5a-add_simplex-idx0.json"),
  ("C05", "F1", "replays/C05-F1-none-accepted.json"),
+ ("C06", "F7", "replays/C06-F7-aspandas-order.json"), ("C06", "F8", "replays/C06-F8-maximal-empty-edge.json"),
+ ("C06", "F9", "replays/C06-F9-local-clustering-ids.json"),
  ("C04", "F5a", "replays/C04-F5a-idx0.json"), ("C04", "F5b", "replays/C04-F5b-bulk-desc.json"),
  ("C04", "F5c", "replays/C04-F5c-df.json"), ("C04", "F5c", "replays/C04-F5c-dh-bipartite.json"),
 ]
